@@ -476,4 +476,363 @@ Proof.
     + exists ca. auto.
 Qed.
 
+(* an unlocked read next to a correct writer is a race after one step *)
+Lemma unlocked_read_races (s : store) l f g (lc lc' : L) rest :
+  exists s' ts', step (s, [mkT (Rd l f :: rest) [] lc; mkT [Acq l Wm; Wr l g; RwLock.Rel l] [] lc']) (s', ts') /\ race ts'.
+Proof.
+  exists s, [mkT (Rd l f :: rest) [] lc; mkT [Wr l g; RwLock.Rel l] [(l, Wm)] lc']. split.
+  - apply (step_i K Keqb St L s s [mkT (Rd l f :: rest) [] lc] (mkT [Acq l Wm; Wr l g; RwLock.Rel l] [] lc')
+                  (mkT [Wr l g; RwLock.Rel l] [(l, Wm)] lc') []).
+    apply (s_acqW K Keqb St L s _ (mkT [Acq l Wm; Wr l g; RwLock.Rel l] [] lc') l [Wr l g; RwLock.Rel l]); simpl; auto.
+    intros t [<-|[]]. reflexivity.
+  - exists [], (mkT (Rd l f :: rest) [] lc), [], (mkT [Wr l g; RwLock.Rel l] [(l, Wm)] lc'), [], l, false, true.
+    simpl. auto.
+Qed.
+
+Lemma simrel_meaning (c : store * pool) ca : simrel c ca ->
+  Forall2 (fun (t : thread) (a : athread) =>
+             (holds t = [] -> todo t = compile_all (fst a) /\ loc t = snd a) /\
+             (forall l m, holds t = [(l, m)] -> exists rem,
+                 todo t = map (bact_act l) rem ++ RwLock.Rel l :: compile_all (fst a) /\
+                 snd a = fst (run_body rem (loc t, fst c l)) /\
+                 (m = Wm -> fst ca l = snd (run_body rem (loc t, fst c l)))))
+          (snd c) (snd ca) /\
+  (forall l, no_writer l (snd c) -> fst c l = fst ca l).
+Proof.
+  destruct c as [s ts], ca as [sa ats]. simpl.
+  intros (_ & HF & HS). split; [|exact HS]. simpl in HF. clear HS.
+  induction HF as [|t a ts' ats' Hta _ IH]; constructor; [|exact IH]. clear IH.
+  destruct Hta as [_ [(Hh & Ht & Hl)|(l & m & rem & Hh & Ht & _ & Hl & Hw)]].
+  - split; [auto|]. intros l m E. rewrite Hh in E. discriminate.
+  - split; [intros E; rewrite Hh in E; discriminate|].
+    intros l' m' E. rewrite Hh in E. injection E as <- <-. exists rem. auto.
+Qed.
+
 End RWProofs.
+
+(* ======================================================================================== *)
+(* The checker of LockCheck.v on the translator's skeletons: soundness of the structured    *)
+(* check for all iteration counts, and the link between skeleton paths and thread programs.  *)
+From Coq Require Import String.
+From RtrV Require Import Gen.LockSkeletons Conc.LockCheck.
+
+Section CheckProofs.
+Variable tol : lk_event -> bool.
+
+Lemma ev_run_app h p q : ev_run tol h (p ++ q) = match ev_run tol h p with Some h' => ev_run tol h' q | None => None end.
+Proof.
+  revert h. induction p as [|e p IH]; intros h; simpl; auto.
+  destruct (ev_step tol h e); auto.
+Qed.
+
+Lemma mode_eqb_eq a b : mode_eqb a b = true -> a = b.
+Proof. destruct a, b; simpl; congruence. Qed.
+
+Lemma lheld_eqb_eq a : forall b, lheld_eqb a b = true -> a = b.
+Proof.
+  induction a as [|[k m] a IH]; intros [|[k' m'] b] H; simpl in H; try discriminate; auto.
+  apply andb_true_iff in H as [H H3]. apply andb_true_iff in H as [H1 H2].
+  apply String.eqb_eq in H1. apply mode_eqb_eq in H2. apply IH in H3. subst. reflexivity.
+Qed.
+
+Lemma ojoin_l a b c x : ojoin a b = Some c -> a = Some x -> c = Some x.
+Proof.
+  intros H ->. destruct b as [y|]; simpl in H.
+  - destruct (lheld_eqb x y); congruence.
+  - congruence.
+Qed.
+
+Lemma ojoin_r a b c x : ojoin a b = Some c -> b = Some x -> c = Some x.
+Proof.
+  intros H ->. destruct a as [y|]; simpl in H.
+  - destruct (lheld_eqb y x) eqn:E; [|discriminate]. apply lheld_eqb_eq in E. congruence.
+  - congruence.
+Qed.
+
+Lemma cjoin3_inv n1 n2 b1 b2 r1 r2 r : cjoin3 n1 n2 b1 b2 r1 r2 = Some r ->
+  ojoin n1 n2 = Some (cn r) /\ ojoin b1 b2 = Some (cb r) /\ ojoin r1 r2 = Some (cr r).
+Proof.
+  unfold cjoin3. destruct (ojoin n1 n2), (ojoin b1 b2), (ojoin r1 r2); try discriminate.
+  intros H. injection H as <-. auto.
+Qed.
+
+Definition exit_of (r : cres) (o : lk_out) : option lheld :=
+  match o with ONorm => cn r | OBrk => cb r | ORet => cr r end.
+
+(* soundness of the structured check: whatever path is taken and however often loops iterate,
+   the trace runs without violating the discipline and ends in the lock state predicted for its exit *)
+Theorem chk_sound p t o : exec p t o -> forall h r, chk tol p h = Some r ->
+  exists h', ev_run tol h t = Some h' /\ exit_of r o = Some h'.
+Proof.
+  induction 1 as [e| | | |a b ta tb o Ha IHa Hb IHb|a b ta Ha IHa|a b ta Ha IHa|a b t o Ha IHa|a b t o Hb IHb
+                  |b t o Hb IHb|b t Hb IHb|b t Hb IHb|b t1 t2 o Hb IHb Hl IHl]; intros h r Hc; simpl in Hc.
+  - destruct (ev_step tol h e) as [h'|] eqn:E; [|discriminate]. injection Hc as <-.
+    exists h'. simpl. rewrite E. auto.
+  - injection Hc as <-. exists h. auto.
+  - injection Hc as <-. exists h. auto.
+  - injection Hc as <-. exists h. auto.
+  - destruct (chk tol a h) as [ra|] eqn:Ea; [|discriminate].
+    destruct (IHa _ _ Ea) as (h1 & R1 & X1). simpl in X1. rewrite X1 in Hc.
+    destruct (chk tol b h1) as [rb|] eqn:Eb; [|discriminate].
+    destruct (IHb _ _ Eb) as (h2 & R2 & X2).
+    apply cjoin3_inv in Hc as (Jn & Jb & Jr).
+    exists h2. rewrite ev_run_app, R1. split; auto.
+    destruct o; simpl in X2 |- *.
+    + simpl in Jn. injection Jn as <-. exact X2.
+    + eapply ojoin_r; eauto.
+    + eapply ojoin_r; eauto.
+  - destruct (chk tol a h) as [ra|] eqn:Ea; [|discriminate].
+    destruct (IHa _ _ Ea) as (h1 & R1 & X1). simpl in X1.
+    destruct (cn ra) as [hn|] eqn:En.
+    + destruct (chk tol b hn) as [rb|] eqn:Eb; [|discriminate].
+      apply cjoin3_inv in Hc as (Jn & Jb & Jr). exists h1. split; auto. simpl. eapply ojoin_l; eauto.
+    + injection Hc as <-. exists h1. auto.
+  - destruct (chk tol a h) as [ra|] eqn:Ea; [|discriminate].
+    destruct (IHa _ _ Ea) as (h1 & R1 & X1). simpl in X1.
+    destruct (cn ra) as [hn|] eqn:En.
+    + destruct (chk tol b hn) as [rb|] eqn:Eb; [|discriminate].
+      apply cjoin3_inv in Hc as (Jn & Jb & Jr). exists h1. split; auto. simpl. eapply ojoin_l; eauto.
+    + injection Hc as <-. exists h1. auto.
+  - destruct (chk tol a h) as [ra|] eqn:Ea; [|discriminate].
+    destruct (chk tol b h) as [rb|] eqn:Eb; [|discriminate].
+    destruct (IHa _ _ Ea) as (h1 & R1 & X1).
+    apply cjoin3_inv in Hc as (Jn & Jb & Jr). exists h1. split; auto.
+    destruct o; simpl in *; eapply ojoin_l; eauto.
+  - destruct (chk tol a h) as [ra|] eqn:Ea; [|discriminate].
+    destruct (chk tol b h) as [rb|] eqn:Eb; [|discriminate].
+    destruct (IHb _ _ Eb) as (h1 & R1 & X1).
+    apply cjoin3_inv in Hc as (Jn & Jb & Jr). exists h1. split; auto.
+    destruct o; simpl in *; eapply ojoin_r; eauto.
+  - destruct (chk tol b h) as [rb|] eqn:Eb; [|discriminate].
+    destruct (IHb _ _ Eb) as (h1 & R1 & X1).
+    destruct (cb rb) eqn:Ecb; [discriminate|].
+    destruct (ojoin (cn rb) (cr rb)) as [n|] eqn:J; [|discriminate]. injection Hc as <-.
+    exists h1. split; auto. simpl.
+    destruct o; simpl in X1.
+    + eapply ojoin_l; eauto.
+    + congruence.
+    + eapply ojoin_r; eauto.
+  - destruct (chk tol b h) as [rb|] eqn:Eb; [|discriminate].
+    destruct (IHb _ _ Eb) as (h1 & R1 & X1). simpl in X1.
+    exists h1. split; auto.
+    destruct (cn rb) as [hn|]; [destruct (lheld_eqb hn h); [|discriminate]|]; injection Hc as <-; simpl; auto.
+  - destruct (chk tol b h) as [rb|] eqn:Eb; [|discriminate].
+    destruct (IHb _ _ Eb) as (h1 & R1 & X1). simpl in X1.
+    exists h1. split; auto.
+    destruct (cn rb) as [hn|]; [destruct (lheld_eqb hn h); [|discriminate]|]; injection Hc as <-; simpl; auto.
+  - assert (Hc' := Hc).
+    destruct (chk tol b h) as [rb|] eqn:Eb; [|discriminate].
+    destruct (IHb _ _ Eb) as (h1 & R1 & X1). simpl in X1. rewrite X1 in Hc.
+    destruct (lheld_eqb h1 h) eqn:E; [|discriminate]. apply lheld_eqb_eq in E. subst h1.
+    assert (Hl' : chk tol (PLoop b) h = Some r) by (simpl; rewrite Eb; exact Hc').
+    destruct (IHl _ _ Hl') as (h2 & R2 & X2).
+    exists h2. rewrite ev_run_app, R1. auto.
+Qed.
+
+(* the listed paths (loops 0 and 1 times) are among the traces *)
+Lemma lk_paths_exec p : forall t o, In (t, o) (lk_paths p) -> exec p t o.
+Proof.
+  induction p as [e| | | |a IHa b IHb|a IHa b IHb|b IHb|b IHb]; intros t o Hin; simpl in Hin.
+  - destruct Hin as [E|[]]. injection E as <- <-. constructor.
+  - destruct Hin as [E|[]]. injection E as <- <-. constructor.
+  - destruct Hin as [E|[]]. injection E as <- <-. constructor.
+  - destruct Hin as [E|[]]. injection E as <- <-. constructor.
+  - apply in_flat_map in Hin as ([ta oa] & Ha & Hx). simpl in Hx. destruct oa.
+    + apply in_map_iff in Hx as ([tb ob] & E & Hb). simpl in E. injection E as <- <-.
+      eapply x_seq; eauto.
+    + destruct Hx as [E|[]]. injection E as <- <-. apply x_seq_brk. auto.
+    + destruct Hx as [E|[]]. injection E as <- <-. apply x_seq_ret. auto.
+  - apply in_app_iff in Hin as [H|H]; [apply x_alt_l|apply x_alt_r]; auto.
+  - apply in_flat_map in Hin as ([t1 o1] & H1 & Hx). simpl in Hx. destruct o1.
+    + apply in_flat_map in Hx as ([t2 o2] & H2 & Hy). simpl in Hy. destruct o2.
+      * destruct Hy.
+      * destruct Hy as [E|[]]. injection E as <- <-. eapply x_loop_more; [eauto|]. apply x_loop_brk. auto.
+      * destruct Hy as [E|[]]. injection E as <- <-. eapply x_loop_more; [eauto|]. apply x_loop_ret. auto.
+    + destruct Hx as [E|[]]. injection E as <- <-. apply x_loop_brk. auto.
+    + destruct Hx as [E|[]]. injection E as <- <-. apply x_loop_ret. auto.
+  - apply in_map_iff in Hin as ([t1 o1] & E & H1). simpl in E. injection E as <- <-.
+    eapply x_call; eauto.
+Qed.
+
+(* a program that passes the structured check: every complete trace is a well-locked path *)
+Theorem chk_prog_sound p t o : chk_prog_tol tol p = true -> exec p t o -> o <> OBrk -> well_locked_tol tol t = true.
+Proof.
+  unfold chk_prog_tol, well_locked_tol. intros H Hx Ho.
+  destruct (chk tol p []) as [r|] eqn:E; [|discriminate].
+  apply andb_true_iff in H as [H Hb]. apply andb_true_iff in H as [Hn Hr].
+  destruct (chk_sound _ _ _ Hx _ _ E) as (h' & R & X). rewrite R.
+  destruct o; simpl in X; try congruence.
+  - rewrite X in Hn. destruct h'; [reflexivity|discriminate].
+  - rewrite X in Hr. destruct h'; [reflexivity|discriminate].
+Qed.
+
+(* consecutive well-locked pieces make a well-locked path (why a long function may be listed
+   statement by statement) *)
+Lemma well_locked_app p q : well_locked_tol tol p = true -> well_locked_tol tol q = true -> well_locked_tol tol (p ++ q) = true.
+Proof.
+  unfold well_locked_tol. intros Hp Hq. rewrite ev_run_app.
+  destruct (ev_run tol [] p) as [[|x h]|]; try discriminate. exact Hq.
+Qed.
+End CheckProofs.
+
+(* ---------------------------------------------------------------------------------------- *)
+(* From skeleton paths to thread programs.  A thread program [p] over concrete tables follows a
+   skeleton path [sk] (whose lock names are the C parameter names) when, forgetting the data
+   functions, the callbacks and the labels, it is the same sequence of lock operations and
+   accesses, the parameter names being bound to distinct tables ([rho] injective).            *)
+Section Link.
+Variable K : Type.
+Variable Keqb : K -> K -> bool.
+Hypothesis Keqb_spec : forall a b, Keqb a b = true <-> a = b.
+Variables (St L : Type).
+
+Inductive sig := SAcq (l : string) (m : mode) | SRel (l : string) | SRd (l : string) | SWr (l : string).
+
+Definition ev_sig (e : lk_event) : list sig :=
+  match e with
+  | AcqR l => [SAcq l Rm] | AcqW l => [SAcq l Wm] | LockSkeletons.Rel l => [SRel l]
+  | LockSkeletons.Rd l _ => [SRd l] | LockSkeletons.Wr l _ => [SWr l] | Cb _ => []
+  end.
+Definition act_sig (rho : string -> K) (a : act K St L) (s : sig) : Prop :=
+  match a, s with
+  | Acq l m, SAcq l' m' => l = rho l' /\ m = m'
+  | RwLock.Rel l, SRel l' => l = rho l'
+  | RwLock.Rd l _, SRd l' => l = rho l'
+  | RwLock.Wr l _, SWr l' => l = rho l'
+  | _, _ => False
+  end.
+Definition follows (rho : string -> K) (p : list (act K St L)) (sk : list lk_event) : Prop :=
+  Forall2 (act_sig rho) p (flat_map ev_sig sk).
+
+Definition hmap (rho : string -> K) (h : lheld) : held K := map (fun x => (rho (fst x), snd x)) h.
+
+Section Rho.
+Variable rho : string -> K.
+Hypothesis rho_inj : forall a b, rho a = rho b -> a = b.
+
+Lemma hget_hmap l h : hget Keqb (rho l) (hmap rho h) = lget l h.
+Proof.
+  unfold lget. induction h as [|[k m] h IH]; simpl; auto.
+  destruct (String.eqb l k) eqn:E.
+  - apply String.eqb_eq in E. subst. rewrite (proj2 (Keqb_spec _ _) eq_refl). reflexivity.
+  - destruct (Keqb (rho l) (rho k)) eqn:E2; [|exact IH].
+    apply Keqb_spec in E2. apply rho_inj in E2. subst. rewrite String.eqb_refl in E. discriminate.
+Qed.
+
+Lemma hrem_hmap l h : hrem Keqb (rho l) (hmap rho h) = hmap rho (lrem l h).
+Proof.
+  unfold lrem. induction h as [|[k m] h IH]; simpl; auto.
+  destruct (String.eqb l k) eqn:E.
+  - apply String.eqb_eq in E. subst. rewrite (proj2 (Keqb_spec _ _) eq_refl). simpl. exact IH.
+  - destruct (Keqb (rho l) (rho k)) eqn:E2.
+    + apply Keqb_spec in E2. apply rho_inj in E2. subst. rewrite String.eqb_refl in E. discriminate.
+    + simpl. rewrite IH. reflexivity.
+Qed.
+
+(* running the checker over a skeleton path = running [wl] over any program that follows it *)
+Lemma follows_run sk : forall p h h', Forall2 (act_sig rho) p (flat_map ev_sig sk) ->
+  ev_run no_tol h sk = Some h' -> forall rest, wl Keqb (hmap rho h) (p ++ rest) = wl Keqb (hmap rho h') rest.
+Proof.
+  induction sk as [|e sk IH]; intros p h h' HF Hr rest; simpl in *.
+  - inversion HF; subst. injection Hr as <-. reflexivity.
+  - destruct (ev_step no_tol h e) as [h1|] eqn:E; [|discriminate].
+    destruct e as [l|l|l|l w|l w|w]; simpl in HF, E.
+    + inversion HF as [|a s p' ss Ha HF']; subst. destruct a; simpl in Ha; try contradiction. destruct Ha as [-> ->].
+      simpl. rewrite hget_hmap. destruct (lget l h); [discriminate|]. injection E as <-.
+      apply (IH p' ((l, Rm) :: h) h' HF' Hr).
+    + inversion HF as [|a s p' ss Ha HF']; subst. destruct a; simpl in Ha; try contradiction. destruct Ha as [-> ->].
+      simpl. rewrite hget_hmap. destruct (lget l h); [discriminate|]. injection E as <-.
+      apply (IH p' ((l, Wm) :: h) h' HF' Hr).
+    + inversion HF as [|a s p' ss Ha HF']; subst. destruct a; simpl in Ha; try contradiction. subst.
+      simpl. rewrite hget_hmap. destruct (lget l h); [|discriminate]. injection E as <-.
+      rewrite hrem_hmap. apply (IH p' _ h' HF' Hr).
+    + inversion HF as [|a s p' ss Ha HF']; subst. destruct a; simpl in Ha; try contradiction. subst.
+      simpl. rewrite hget_hmap. destruct (lget l h); [|discriminate]. injection E as <-.
+      apply (IH p' _ h' HF' Hr).
+    + inversion HF as [|a s p' ss Ha HF']; subst. destruct a; simpl in Ha; try contradiction. subst.
+      simpl. rewrite hget_hmap. destruct (lget l h) as [[|]|]; try discriminate. injection E as <-.
+      apply (IH p' _ h' HF' Hr).
+    + injection E as <-. apply (IH p h h' HF Hr).
+Qed.
+End Rho.
+
+(* a thread program made of calls: each call follows some well-locked skeleton path of an admitted
+   function, with its own binding of parameter names to distinct tables *)
+Inductive from_paths (okf : string -> bool) : list (act K St L) -> Prop :=
+| fp_nil : from_paths okf []
+| fp_call f sk rho p rest :
+    In (f, sk) lock_skeletons -> okf f = true -> (forall a b, rho a = rho b -> a = b) ->
+    follows rho p sk -> from_paths okf rest -> from_paths okf (p ++ rest).
+
+Lemma from_paths_wl okf :
+  (forall f sk, In (f, sk) lock_skeletons -> okf f = true -> well_locked sk = true) ->
+  forall p, from_paths okf p -> wl Keqb [] p = true.
+Proof.
+  intros Hok p Hp. induction Hp as [|f sk rho p rest Hin Hf Hinj Hfol _ IH]; [reflexivity|].
+  specialize (Hok f sk Hin Hf). unfold well_locked, well_locked_tol in Hok.
+  destruct (ev_run no_tol [] sk) as [[|x h]|] eqn:E; try discriminate.
+  change (@nil (K * mode)) with (hmap rho []).
+  rewrite (follows_run rho Hinj sk p [] [] Hfol E rest). exact IH.
+Qed.
+End Link.
+
+(* ---------------------------------------------------------------------------------------- *)
+(* the instance: the checks evaluated on the translator's current output                     *)
+Lemma instance_translation : skeleton_problems = [] /\ segments_faithful = true.
+Proof. split; vm_compute; reflexivity. Qed.
+
+Lemma instance_lifecycle : lifecycle_check = true.
+Proof. vm_compute. reflexivity. Qed.
+
+Lemma instance_outside_known : paths_check known_tol = true /\ progs_check known_tol = true.
+Proof. split; vm_compute; reflexivity. Qed.
+
+Lemma instance_decided :
+  if paths_check (fun _ => no_tol) && progs_check (fun _ => no_tol)
+  then paths_check (fun _ => no_tol) = true /\ progs_check (fun _ => no_tol) = true
+  else ~ (paths_check (fun _ => no_tol) = true /\ progs_check (fun _ => no_tol) = true).
+Proof.
+  destruct (paths_check (fun _ => no_tol)), (progs_check (fun _ => no_tol)); simpl; auto;
+    intros [? ?]; discriminate.
+Qed.
+
+Lemma find_none_names f (l : list (string * list string)) :
+  in_names f (map fst l) = false -> find (fun p => String.eqb (fst p) f) l = None.
+Proof.
+  unfold in_names. induction l as [|[k v] l IH]; simpl; auto.
+  intros H. apply orb_false_iff in H as [H1 H2]. rewrite String.eqb_sym. rewrite H1. auto.
+Qed.
+
+Lemma admitted_checked f : admitted f = true -> is_lifecycle f = false /\ known_tol f = no_tol.
+Proof.
+  unfold admitted. intros H. apply andb_true_iff in H as [H1 H2].
+  apply negb_true_iff in H1. apply negb_true_iff in H2. split; auto.
+  unfold known_tol. rewrite (find_none_names _ _ H2). reflexivity.
+Qed.
+
+Lemma instance_paths f sk : In (f, sk) lock_skeletons -> admitted f = true -> well_locked sk = true.
+Proof.
+  intros Hin Ha. destruct (admitted_checked _ Ha) as [Hl Hk].
+  pose proof (proj1 instance_outside_known) as H. unfold paths_check in H.
+  rewrite forallb_forall in H. specialize (H _ Hin). simpl in H. rewrite Hl, Hk in H. exact H.
+Qed.
+
+Lemma instance_race_free : forall (K : Type) (Keqb : K -> K -> bool), (forall a b, Keqb a b = true <-> a = b) ->
+  forall (St L : Type) (s0 : store K St) (ts0 : pool K St L) s ts,
+  (forall t, In t ts0 -> holds t = [] /\ from_paths K St L admitted (todo t)) ->
+  steps Keqb (s0, ts0) (s, ts) -> ~ race ts.
+Proof.
+  intros K Keqb Hk St L s0 ts0 s ts H0 Hst.
+  eapply (rw_race_free K Keqb Hk St L); [|exact Hst].
+  intros t Ht. destruct (H0 t Ht) as [Hh Hf]. split; auto.
+  eapply from_paths_wl; eauto. exact instance_paths.
+Qed.
+
+Lemma instance_all_iterations f p t o :
+  In (f, p) lock_programs -> admitted f = true -> exec p t o -> o <> OBrk -> well_locked t = true.
+Proof.
+  intros Hin Ha Hx Ho. destruct (admitted_checked _ Ha) as [Hl Hk].
+  pose proof (proj2 instance_outside_known) as H. unfold progs_check in H.
+  rewrite forallb_forall in H. specialize (H _ Hin). simpl in H. rewrite Hl, Hk in H. simpl in H.
+  exact (chk_prog_sound no_tol p t o H Hx Ho).
+Qed.
